@@ -46,6 +46,17 @@ CLAIMED = {
             "enumerations (12 configurations x 65536 pairs).",
             "x86 vector code modelled per 32-bit granule; wrappers (loads, loops, horizontal sums) hand-modelled and tied by the "
             "per-backend hook suite DIST-BODY; little-endian from_ne_bytes; aarch64/wasm/portable-SIMD backends not compiled here"),
+    "C07": ("PARTIAL.  HEADLINE config_independent: two configurations agreeing on parser strictness give identical results for "
+            "parsing, formatting, generation and comparison on every input (hex tables full/half/quarter/min and hex-simd, 256-slot "
+            "or low-memory buckets, Pearson double table, length/Q-ratio distance tables, clz-narrowed or whole-table length search, "
+            "feature unsafe, debug assertions, any std-conforming selection, five body-distance backends).  SIMD bucket aggregation: "
+            "the three sub_aggregation kernels are re-read from the source on every run; the unsigned-compare idiom is proved "
+            "(signed > after flipping the sign bits = unsigned >); each kernel is evaluated in the kernel on EVERY vector of per-lane "
+            "outcomes (4^4 x 256 undefined-operand patterns; 4^8 for AVX2) and lifted through the loops: every backend = naive = "
+            "reference body for all buckets and ordered quartiles, and finalize only aggregates with ordered quartiles.  First-call "
+            "race: whichever backend a racing closure stores, every call returns the same value.",
+            "PARTIAL: OnceLock atomicity and is_x86_feature_detected! are std's; feature -> model-flag mapping validated by the CFG "
+            "matrix (quick 4 builds, thorough 13) with line-identical transcripts; aarch64/wasm/portable-SIMD backends not compiled here"),
     "C08": ("Theorems on the comparison model for every configuration, backend, variant and hash pair: d(a,a)=0; default-mode "
             "d(a,b)=0 implies a=b; d(a,b)=d(b,a); d <= max_distance = 6*buckets + checksum bytes + 168 (+1536) and the bound is "
             "attained by an explicit pair for every variant and mode; default = no-length + length-part distance; clearing both "
